@@ -42,7 +42,7 @@ PROPS = {
                 natives=[("units/native/format_env.nt.rs", "9331 environment lists: all lists of 0..5 entries over the names {A,B,CC} and the values {empty, x}"),
                          ("units/native/cvec.nt.rs", "11132 argument vectors: 0..3 strings of length 0..3 (pairs/triples 0..2) over the bytes {a, /, NUL, 0xff}; pointer table read back through raw pointers")]),
     "C07": dict(units=["spawn", "exec"], kani=["w_pipe", "w_fork_ids", "w_waitpid"], level="proof",
-                bounded_scenarios=[("c07_launch_failures", "58 launches through the real crate: 9 kinds of unstartable program / working directory x {pipes, no pipes} x {detached, not}, descriptor exhaustion at 12 RLIMIT_NOFILE settings, and chdir / setpgid / setgid / setuid / dup2 / fork made to fail by strace fault injection; the error must carry the errno of the failed step, no child may be left running or unreaped, no descriptor left open")]),
+                bounded_scenarios=[("c07_launch_failures", "78 launches through the real crate: 9 kinds of unstartable program / working directory x {pipes, no pipes} x {detached, not} and x {stderr merged into the inherited stdout, stdout merged into the inherited stderr}, descriptor exhaustion at 12 RLIMIT_NOFILE settings, and chdir / setpgid / setgid / setuid / dup2 / fork made to fail by strace fault injection; the error must carry the errno of the failed step, no child may be left running or unreaped, no descriptor left open")]),
     "C15": dict(units=["exec", "splitpath"], kani=["b_split_path_b3"], level="proof",
                 bounded_scenarios=[("c15_path_lookup", "202 lookups on a real file system: all 64 placements of {nothing, non-executable file, directory, executable} under 3 PATH directories x 3 PATH spellings (plain, with empty and duplicate entries), 6 slash / explicit-executable cases, a name that exists only in the child's cwd (ENOENT), a non-executable only candidate (EACCES), and a child environment whose PATH differs from the parent's")]),
     "C17": dict(units=["spawn", "exec"], kani=["w_chdir"], level="proof",
@@ -62,7 +62,7 @@ PROPS = {
     "C16": dict(units=["builder"], bounded_scenarios=[("c16_builder_model", "1631 command descriptions: every sequence of up to 3 of 9 builder edits (env/env_remove/env_clear/env_extend/arg), each also through a clone taken half-way, run through the real crate and /bin/sh against a plain model")],
                 kani=["r_exec_stdin_refuses", "r_exec_stdout_refuses", "r_exec_stderr_refuses", "r_exec_terminators_refuse_data", "w_exec_stdin_accepts"], level="proof"),
     "C08": dict(units=["spawn", "builder"], kani=["w_pipe", "w_set_inheritable", "w_make_standard_stream"], level="proof",
-                bounded_scenarios=[("c08_fd_audit", "2 x 48 descriptor tables read back from real children (/proc/$$/fd): single commands under all 8 inherit/pipe combinations alone and with three other Popens alive, 4 merge variants, every stage of 2..4-command pipelines run by join / capture / stream_stdout, 100 children spawned concurrently from four threads; all of it a second time in a parent whose descriptors 0 and 2 are closed; a child may hold 0, 1, 2 and nothing else")]),
+                bounded_scenarios=[("c08_fd_audit", "2 x 49 descriptor tables read back from real children (/proc/$$/fd): single commands under all 8 inherit/pipe combinations alone and with three other Popens alive, 4 merge variants, a child spawned while three exchanges (communicate_start, Exec::communicate, Pipeline::communicate) are set up and unfinished, every stage of 2..4-command pipelines run by join / capture / stream_stdout, 100 children spawned concurrently from four threads; all of it a second time in a parent whose descriptors 0 and 2 are closed; a child may hold 0, 1, 2 and nothing else")]),
     "C09": dict(units=["pstate"], kani=["w_decode_exit_status", "w_waitpid"], level="proof",
                 bounded_scenarios=[("c09_status_matrix", "298 children through the real crate: every exit code 0..255 through wait / wait_timeout / poll, 20 fatal signals with and without core dumps, a stopped child (never reported as finished), a child reaped behind the library's back; every later query in every order must repeat the status and pid() must be gone")]),
     "C10": dict(units=["pstate"], kani=["w_kill", "w_waitpid"], level="proof",
